@@ -796,7 +796,60 @@ pub fn client_subscription_array_equals_single() -> Value {
 					"observed": format!("stream yielded {:?}, ended = {}", got, ended), "expected":"stream yields [\"a\", \"b\"] and then ends"});
 			}
 		}
-		json!({"probe":"client_subscription_array_equals_single","disagrees":false,"histories_tried":2})
+		// a lagging subscription (buffer 1, nothing read) sharing an array with a batch reply: the batch still completes with
+		// its own answers, and the lag closure makes the client send exactly one unsubscribe request naming that subscription
+		for packed in [true, false] {
+			let (c, mut peer) = mock::client(ClientBuilder::default().max_buffer_capacity_per_subscription(1).request_timeout(std::time::Duration::from_secs(2)));
+			let c = std::sync::Arc::new(c);
+			let fut = c.subscribe::<String, _>("sub", rpc_params![], "unsub");
+			let h = tokio::spawn(async move {
+				let req = peer.next().await.unwrap();
+				peer.send(&json!({"jsonrpc":"2.0","id":id_of(&req),"result":"L1"}).to_string());
+				peer
+			});
+			let sub: Subscription<String> = fut.await.unwrap();
+			let mut peer = h.await.unwrap();
+			let mut b = BatchRequestBuilder::new();
+			b.insert("m", rpc_params![0]).unwrap();
+			b.insert("m", rpc_params![1]).unwrap();
+			let c2 = c.clone();
+			let bh = tokio::spawn(async move { c2.batch_request::<String>(b).await.map(|r| r.into_iter().map(|e| e.map_err(|e| e.message().to_string())).collect::<Vec<_>>()).map_err(|e| e.to_string()) });
+			let breq = peer.next().await.unwrap();
+			let arr: Vec<Value> = serde_json::from_str(&breq).unwrap_or_default();
+			let (i0, i1) = (arr[0]["id"].clone(), arr[1]["id"].clone());
+			let n = |k: u32| json!({"jsonrpc":"2.0","method":"sub","params":{"subscription":"L1","result":format!("item{k}")}});
+			let r0 = json!({"jsonrpc":"2.0","id":i0,"result":"zero"});
+			let r1 = json!({"jsonrpc":"2.0","id":i1,"result":"one"});
+			if packed {
+				peer.send(&json!([n(1), n(2), r0, r1]).to_string());
+			} else {
+				peer.send(&n(1).to_string());
+				peer.send(&n(2).to_string());
+				peer.send(&json!([r0, r1]).to_string());
+			}
+			let shape = if packed { "[notif, notif (overflows the buffer), response, response] in ONE array" } else { "two single notifications (the second overflows the buffer), then the batch reply array" };
+			let got = tokio::time::timeout(std::time::Duration::from_secs(3), bh).await;
+			let want: Result<Vec<Result<String, String>>, String> = Ok(vec![Ok("zero".to_string()), Ok("one".to_string())]);
+			match got {
+				Ok(Ok(r)) if r == want => {}
+				other => return json!({"probe":"client_subscription_array_equals_single","disagrees":true,
+					"input": format!("subscription L1 with buffer 1 and an idle consumer; a batch of 2 pending; server sends {shape}"),
+					"observed": format!("batch call: {:?}", other.map(|x| x.map_err(|e| e.to_string()))), "expected":"Ok([\"zero\", \"one\"])"}),
+			}
+			// exactly one unsubscribe naming L1
+			let mut unsubs = 0;
+			while let Ok(Some(m)) = tokio::time::timeout(std::time::Duration::from_millis(300), peer.next()).await {
+				let v: Value = serde_json::from_str(&m).unwrap_or(Value::Null);
+				if v["method"] == json!("unsub") && v["params"] == json!(["L1"]) { unsubs += 1; }
+			}
+			if unsubs != 1 {
+				return json!({"probe":"client_subscription_array_equals_single","disagrees":true,
+					"input": format!("subscription L1 with buffer 1 and an idle consumer closed for lagging; server sent {shape}"),
+					"observed": format!("{unsubs} unsubscribe request(s) naming L1 on the wire"), "expected":"exactly one"});
+			}
+			drop(sub);
+		}
+		json!({"probe":"client_subscription_array_equals_single","disagrees":false,"histories_tried":4})
 	})
 }
 
@@ -1537,7 +1590,38 @@ pub fn subscription_bookkeeping() -> Value {
 				return fail("after that unsubscribe the held sink", rep2, "reports closed");
 			}
 		}
-		json!({"probe":"subscription_bookkeeping","disagrees":false,"histories_tried":3})
+		// history 4: a rejected (or never accepted) subscription whose handler returns a closing value AT ONCE: nothing but
+		// the error response to the subscribe call may be sent
+		{
+			use jsonrpsee_core::server::SubscriptionCloseResponse;
+			use jsonrpsee_types::ErrorObject;
+			let mut module4 = RpcModule::new(());
+			module4
+				.register_subscription("rej_notif", "n1", "u1", |_, pending, _, _| async move {
+					pending.reject(ErrorObject::owned(-32000, "rejected", None::<()>)).await;
+					SubscriptionCloseResponse::Notif(raw("\"do not send\""))
+				})
+				.unwrap();
+			module4
+				.register_subscription("rej_err", "n2", "u2", |_, pending, _, _| async move {
+					pending.reject(ErrorObject::owned(-32000, "rejected", None::<()>)).await;
+					SubscriptionCloseResponse::NotifErr(jsonrpsee_core::SubscriptionError::from("do not send"))
+				})
+				.unwrap();
+			for m in ["rej_notif", "rej_err"] {
+				let req = format!(r#"{{"jsonrpc":"2.0","id":1,"method":"{m}"}}"#);
+				let (rp, mut stream) = match module4.raw_json_request(&req, 4).await { Ok(x) => x, Err(e) => return fail(&req, format!("raw_json_request failed: {e}"), "an error response") };
+				let rp_v: Value = serde_json::from_str(rp.get()).unwrap_or(Value::Null);
+				if rp_v.get("error").is_none() {
+					return fail(&format!("subscribe call to {m:?} whose handler rejects / drops the pending subscription"), rp.get().to_string(), "an error response");
+				}
+				let extra = tokio::time::timeout(std::time::Duration::from_millis(150), stream.recv()).await;
+				if let Ok(Some(x)) = extra {
+					return fail(&format!("subscription {m:?} is rejected (or never accepted) and its handler returns a closing value at once"), format!("sent afterwards: {}", x.get()), "nothing (the closing value of a never-accepted subscription is discarded)");
+				}
+			}
+		}
+		json!({"probe":"subscription_bookkeeping","disagrees":false,"histories_tried":4})
 	})
 }
 
@@ -1762,6 +1846,17 @@ pub fn subscription_id_reuse() -> Value {
 		if notifs != vec![json!("b")] {
 			return fail(input, format!("notifications delivered for subscription 7: {}", Value::Array(notifs)), "only [\"b\"] (the second subscription's own)");
 		}
-		json!({"probe":"subscription_id_reuse","disagrees":false,"histories_tried":1,"bound":"one connection, two subscriptions sharing id 7, one unsubscribe in between"})
+		// the first handler has now finished and dropped its (closed) sink: the SECOND subscription, which nobody unsubscribed and
+		// whose handler still holds its sink, is still active — unsubscribing it answers true
+		tokio::time::sleep(std::time::Duration::from_millis(50)).await;
+		let _ = tx.send(json!({"jsonrpc":"2.0","id":4,"method":"unsub","params":[7]}).to_string()).await;
+		let mut r4 = Value::Null;
+		for _ in 0..3 {
+			if let Some(f) = next_frame(&mut rx, 1000).await { if f["id"] == json!(4) { r4 = f; break; } }
+		}
+		if r4["result"] != json!(true) {
+			return fail("... then the first handler drops its sink, and the client unsubscribes [7] (the second subscription, still held by its handler)", r4.to_string(), "true (the second subscription was active until this unsubscribe)");
+		}
+		json!({"probe":"subscription_id_reuse","disagrees":false,"histories_tried":1,"bound":"one connection, two subscriptions sharing id 7, one unsubscribe in between, the first sink dropped after the second was accepted"})
 	})
 }
